@@ -43,10 +43,10 @@ fn state_hash(t: &Tasks) -> u64 {
     fnv(format!("{t:?}").as_bytes())
 }
 
-fn batch(worker: usize, seq: u64, rng: &mut Rng) -> Operations {
+fn batch(worker: usize, seq: u64, rng: &mut Rng, with_undo: bool) -> Operations {
     let own = Uuid::from_u128(0xC17_0000_0000_4000_8000_0000_0000_0000u128 + ((worker as u128) << 40) + seq as u128);
     let sh = shared(rng.below(3) as u128);
-    vec![
+    let v = vec![
         Operation::UndoPoint,
         Operation::Create { uuid: own },
         Operation::Update { uuid: own, property: "id".into(), old_value: None, value: Some(format!("w{worker}-{seq}")), timestamp: ts(seq as i64) },
@@ -54,7 +54,18 @@ fn batch(worker: usize, seq: u64, rng: &mut Rng) -> Operations {
         // contended read-modify-write of a shared task row; a fresh property per commit keeps the
         // recorded old value (None) valid whatever the other handles do
         Operation::Update { uuid: sh, property: format!("w{worker}-{seq}"), old_value: None, value: Some(format!("v{worker}-{seq}")), timestamp: ts(seq as i64) },
-    ]
+    ];
+    let mut v = v;
+    // In rounds without undo, several handles also flip the status of the *same* shared task
+    // between completed and pending (the recorded old value is what the handle believes, as in real
+    // use where reading and committing are separate transactions): each flip to pending is a
+    // candidate working-set insertion racing with the other handles' insertions of that task.
+    if !with_undo && rng.chance(1, 2) {
+        let to_pending = rng.chance(1, 2);
+        let (old, new) = if to_pending { ("completed", "pending") } else { ("pending", "completed") };
+        v.push(Operation::Update { uuid: sh, property: "status".into(), old_value: Some(old.into()), value: Some(new.into()), timestamp: ts(seq as i64) });
+    }
+    v
 }
 
 /// One worker's life. `with_undo` is fixed per round.
@@ -78,7 +89,7 @@ pub fn worker_run(dir: &std::path::Path, worker: usize, seed: u64, round: u64, a
         }
         let choice = rng.below(100);
         if choice < 60 {
-            let ops = batch(worker, seq, &mut rng);
+            let ops = batch(worker, seq, &mut rng, with_undo);
             let res = block_on(rep.commit_operations(ops.clone()));
             log.push(LogEntry { worker, seq, kind: "commit".into(), ok: res.is_ok(), flag: false, ops, state_hash: 0, err: res.err().map(|e| format!("{e:#}")).unwrap_or_default() });
         } else if choice < 72 && with_undo {
@@ -353,6 +364,86 @@ fn round_case(i: u64, seed: u64, out: &mut CaseOut) {
     }
 }
 
+/// Working-set insertion race: many tasks that are *not* in the working set (status completed) are
+/// turned pending by all workers at the same moment (barrier-synchronised), every worker through
+/// its own handle. However the commits interleave, each task must end up in the working set once.
+fn ws_race_case(i: u64, seed: u64, out: &mut CaseOut) {
+    let mut rng = Rng::derive(seed, "c17-wsrace", i);
+    let replay = json!({"stratum": "ws-race", "index": i});
+    let base = TempDir::new("c17ws");
+    let dir = base.path().join("replica");
+    std::fs::create_dir_all(&dir).unwrap();
+    let workers = 3 + rng.below(5);
+    let steps = 40usize;
+    let task = |k: usize| Uuid::from_u128(0xC17_7000_0000_4000_8000_0000_0000_0000u128 + k as u128);
+    {
+        let st = block_on(SqliteStorage::new(&dir, AccessMode::ReadWrite, true)).expect("init");
+        let mut rep = Replica::new(st);
+        let mut ops = Operations::new();
+        for k in 0..steps {
+            ops.push(Operation::Create { uuid: task(k) });
+            ops.push(Operation::Update { uuid: task(k), property: "status".into(), old_value: None, value: Some("completed".into()), timestamp: ts(0) });
+        }
+        block_on(rep.commit_operations(ops)).expect("init commit");
+    }
+    let barrier = std::sync::Barrier::new(workers);
+    let results: Vec<(u64, u64)> = std::thread::scope(|s| {
+        let hs: Vec<_> = (0..workers)
+            .map(|w| {
+                let d = dir.clone();
+                let barrier = &barrier;
+                s.spawn(move || {
+                    let st = block_on(SqliteStorage::new(&d, AccessMode::ReadWrite, false)).expect("open");
+                    let mut rep = Replica::new(st);
+                    let (mut ok, mut failed) = (0u64, 0u64);
+                    for k in 0..steps {
+                        barrier.wait();
+                        let ops = vec![Operation::Update { uuid: task(k), property: "status".into(), old_value: Some("completed".into()), value: Some("pending".into()), timestamp: ts(1 + w as i64) }];
+                        match block_on(rep.commit_operations(ops)) {
+                            Ok(()) => ok += 1,
+                            Err(_) => failed += 1,
+                        }
+                    }
+                    (ok, failed)
+                })
+            })
+            .collect();
+        hs.into_iter().map(|h| h.join().unwrap_or((0, 0))).collect()
+    });
+    out.count("ws_race_commits_ok", results.iter().map(|r| r.0).sum());
+    out.count("commits_failed", results.iter().map(|r| r.1).sum());
+    let mut st = block_on(SqliteStorage::new(&dir, AccessMode::ReadWrite, false)).expect("audit open");
+    let d = match dump_storage(&mut st) {
+        Ok(d) => d,
+        Err(e) => {
+            out.violate("audit/unreadable".to_string(), e, replay);
+            return;
+        }
+    };
+    let mut seen = BTreeSet::new();
+    let mut dups = vec![];
+    for u in d.ws.iter().flatten() {
+        if !seen.insert(*u) {
+            dups.push(model::su(*u));
+        }
+    }
+    if !dups.is_empty() {
+        out.violate("audit/working-set-duplicate".to_string(), format!("{} task(s) occupy two working-set positions after {workers} handles turned them pending at the same moment, e.g. {:?}", dups.len(), &dups[..dups.len().min(3)]), replay);
+        return;
+    }
+    let pending: BTreeSet<Uuid> = d.tasks.iter().filter(|(_, m)| m.get("status").map(|s| s == "pending").unwrap_or(false)).map(|(u, _)| *u).collect();
+    if seen != pending {
+        out.violate("audit/working-set-lost-or-duplicated".to_string(), format!("working set holds {} tasks, {} are pending", seen.len(), pending.len()), replay);
+        return;
+    }
+    out.count("ws_race_tasks_checked", pending.len() as u64);
+    out.count("rounds_audited", 1);
+    out.nontrivial = Some(fnv(format!("wsrace{i}").as_bytes()));
+    if i < 1 {
+        out.sample = Some(json!({"workers": workers, "tasks_turned_pending_simultaneously": steps, "working_set_entries": seen.len()}));
+    }
+}
+
 pub fn run(ctx: &Ctx) -> Outcome {
     let mut acc = Acc::default();
     let seed = ctx.seed;
@@ -362,12 +453,26 @@ pub fn run(ctx: &Ctx) -> Outcome {
         None => (0, ctx.tier.pick(30, 1500)),
     };
     // rounds themselves are multi-threaded: run few at a time
-    run_cases_threads(&mut acc, "rounds", hi - lo, 3, |i| {
+    let rounds_wanted = ctx.replay.as_ref().and_then(|r| r.get("stratum").and_then(|s| s.as_str())).map(|s| s == "rounds").unwrap_or(true);
+    run_cases_threads(&mut acc, "rounds", if rounds_wanted { hi - lo } else { 0 }, 3, |i| {
         let mut out = CaseOut::new();
         round_case(i + lo, seed, &mut out);
         out
     });
+    let only = ctx.replay.as_ref().and_then(|r| r.get("stratum").and_then(|s| s.as_str()).map(|s| s.to_string()));
+    if only.as_deref().map(|o| o == "ws-race").unwrap_or(true) {
+        let (lo2, hi2) = match (only.as_deref(), only_idx) {
+            (Some("ws-race"), Some(i)) => (i, i + 1),
+            _ => (0, ctx.tier.pick(8, 300)),
+        };
+        run_cases_threads(&mut acc, "ws-race", hi2 - lo2, 2, |i| {
+            let mut out = CaseOut::new();
+            ws_race_case(i + lo2, seed, &mut out);
+            out
+        });
+    }
     if only_idx.is_none() {
+        acc.require("ws_race_tasks_checked", 100, "too few simultaneous working-set insertions");
         acc.require("commits_ok", 500, "too few successful commits");
         acc.require("worker_switches_in_stored_log", 100, "the stored logs show almost no interleaving between workers");
         acc.require("rounds_with_processes", 1, "no multi-process round");
@@ -376,7 +481,7 @@ pub fn run(ctx: &Ctx) -> Outcome {
     }
     Outcome {
         level: "exploration",
-        rule: "rounds of 2-8 workers (threads; 1/3 of the rounds child processes), each with its own SqliteStorage handle on one directory, 40 actions each: commit of a 5-operation batch (fresh private task + fresh-property update of one of 3 shared tasks), undo of the log tail (half of the rounds), rebuild in both modes, reads; random sub-millisecond pauses between actions; post-hoc audit through a fresh handle of every logged commit/undo against the stored log, replay(log) == tasks, working set, reader states; non-trivial = the stored log interleaves different workers; distinct by the worker sequence of the stored log".into(),
+        rule: "rounds of 2-8 workers (threads; 1/3 of the rounds child processes), each with its own SqliteStorage handle on one directory, 40 actions each: commit of a 5-operation batch (fresh private task + fresh-property update of one of 3 shared tasks), undo of the log tail (half of the rounds), rebuild in both modes, reads; random sub-millisecond pauses between actions; plus ws-race rounds (3-7 handles turn the same 40 not-yet-listed tasks pending at barrier-synchronised moments); post-hoc audit through a fresh handle of every logged commit/undo against the stored log, replay(log) == tasks, working set, reader states; non-trivial = the stored log interleaves different workers; distinct by the worker sequence of the stored log".into(),
         exhaustive: None,
         acc,
         assumptions: vec![
